@@ -10,6 +10,15 @@
 //! Files are created in ascending `rank`; they are *listed in the request in the order `read_dir` returned them* when the
 //! generator probed the same creation sequence (the model needs the listing order only outside the well-formed domain; if
 //! an ill-formed directory lists differently at `exec` time the case is skipped).
+//!
+//! Edge files. A `(diff …)` content must be inside the write/read fixed-point domain of the `.tinydiff` text as the
+//! *specification* describes it (`diffgen::writable` + no `Edit(a, a)`; decided without the code under test); the file is
+//! the specification text of that diff (`diffcodec::write_spec`). Whether `/repo` reads such a file back is *not* a
+//! precondition of a case: a well-formed edge file that the implementation cannot read (or cannot apply) shows up as
+//! an answer that differs from the model and as a failing `oracle-path-independent`, whose domain is evaluated with
+//! the independent specification of diff application (`diffgen::spec_apply`), not with the code under test.
+//! The generator likewise uses neither the `.tinydiff` reader nor `apply_to`: the diffs of the "direct" directories are
+//! drawn by `diffgen::gen_diff_for` (the generator of C04) against the specification label of the parent version.
 #![allow(dead_code, unused_imports, unused_variables, deprecated)]
 
 #[path = "/repo/src/version_graph.rs"]
@@ -26,6 +35,7 @@ use java_string::{JavaCodePoint, JavaString};
 use quill::tree::mappings::Mappings;
 use quill::tree::mappings_diff::MappingsDiff;
 use fvh::diffcodec::{diff_from, diff_to, write_spec};
+use fvh::diffgen::{act, canon_mappings, gen_diff_for, items, norm_diff, spec_apply, writable, Act, DCfg, GDClass, GDMember, GDParam, GDiff, GA};
 use fvh::mapcodec::{from_sexp, to_sexp, NsMarker};
 use fvh::mapgen::{doc as gen_doc, gen_mappings, ident, GClass, GMappings, GMember, GParam, MapCfg};
 use fvh::rng::Rng;
@@ -105,6 +115,7 @@ impl Content {
 			}
 			Content::Diff(s) => {
 				let d = diff_from(s)?;
+				if !writable(s) || norm_diff(s) != *s { return Err("diff content is outside the write/read fixed-point domain of the .tinydiff text".into()); }
 				let mut js = JavaString::new();
 				for c in write_spec(&d) { js.push_java(JavaCodePoint::from_u32(c).ok_or("bad code point")?); }
 				Ok(js.into_bytes())
@@ -162,17 +173,14 @@ fn mk_temp(base: usize) -> Option<TempDir> {
 	None
 }
 
-/// creates the files in the given order; `Err` on a content outside the codec domain, `Ok(None)` when the base is missing
+/// creates the files in the given order; `Err` on a content outside the codec domain, `Ok(None)` when the base is missing.
+/// (Whether the implementation reads a `.tinydiff` back is deliberately not checked here, see the module comment.)
 fn materialize(base: usize, files: &[&FileSpec]) -> Result<Option<TempDir>, String> {
 	let Some(td) = mk_temp(base) else { return Ok(None) };
 	for f in files {
 		let bytes = f.content.bytes()?;
 		let p = td.0.join(&f.name);
 		std::fs::write(&p, bytes).map_err(|e| format!("cannot create {:?}: {e}", f.name))?;
-		if let Content::Diff(s) = &f.content {
-			let back = quill::tiny_v2_diff::read_file(&p).map_err(|e| format!("diff content does not read back: {e:#}"))?;
-			if diff_to(&back) != *s { return Err("diff content is not a write/read fixed point".into()); }
-		}
 	}
 	Ok(Some(td))
 }
@@ -453,16 +461,18 @@ fn oracle_path_independent(req: &Req, dir: &Path, labels: &Sexp) -> Ans {
 	if !well_formed(&names) { return Ans::out_of_domain(); }
 	let Ok(g) = VersionGraph::resolve(dir) else { return Ans::out_of_domain() };
 	let Some(r) = analyse(&g) else { return Ans::fail("no-root-entry") };
-	// domain: the labels are consistent with every diff file and with the root file
+	// domain: the labels are consistent with every diff file and with the root file. "Consistent with a diff file" is
+	// decided by the specification of diff application on the content the request gives for that file, not by reading
+	// and applying it with the code under test: an edge that the implementation cannot read or apply stays in the domain.
 	let same = |a: &RM, b: &RM| canon(a) == canon(b);
 	match lab.get(r.root.as_str()) { Some(m) if same(m, r.root_m) => {}, _ => return Ans::out_of_domain() }
 	for (p, _) in &r.nodes {
 		let Some(mp) = lab.get(p) else { continue };
 		for c in r.adj.get(p).cloned().unwrap_or_default() {
-			let (Some(pe), Some(ce)) = (r.entry(p), r.entry(&c)) else { return Ans::out_of_domain() };
-			let Ok(Some(d)) = g.get_diff(pe, ce) else { return Ans::out_of_domain() };
-			let Ok(mc) = d.apply_to::<2, (Intermediary, Named), (Intermediary, Named)>(mp.clone(), "named") else { return Ans::out_of_domain() };
-			match lab.get(&c) { Some(lc) if same(lc, &mc) => {}, _ => return Ans::out_of_domain() }
+			let fname = format!("{p}#{c}.tinydiff");
+			let Some(Content::Diff(d)) = req.files.iter().find(|f| f.name == fname).map(|f| &f.content) else { return Ans::out_of_domain() };
+			let Ok(mc) = spec_apply(d, &to_sexp(mp), &Sexp::str("named")) else { return Ans::out_of_domain() };
+			match lab.get(&c) { Some(lc) if canon_mappings(&to_sexp(lc)) == mc => {}, _ => return Ans::out_of_domain() }
 		}
 	}
 	for (n, v) in &r.nodes {
@@ -568,21 +578,227 @@ fn tiny_content(m: &RM) -> Option<Content> {
 	Some(c)
 }
 
-/// the `(diff …)` content of `MappingsDiff::diff(a, b)`, normalised through the specification writer and the reader
-fn diff_content(a: &RM, b: &RM, scratch: &Path) -> Option<Content> {
+/// an empty comment cannot be written (an empty cell means "no comment"): labels never carry one
+fn scrub(m: &mut GMappings) {
+	fn f(d: &mut Option<String>) { if d.as_deref() == Some("") { *d = None; } }
+	f(&mut m.doc);
+	for c in &mut m.classes {
+		f(&mut c.doc);
+		for x in &mut c.fields { f(&mut x.doc); }
+		for x in &mut c.methods { f(&mut x.doc); for p in &mut x.params { f(&mut p.doc); } }
+	}
+}
+
+/// "history" directories: the diff `MappingsDiff::diff(a, b)` of /repo, brought into the normal form of the text by the
+/// specification (`Edit(a, a)` reads back as "no action"); `None` = not in the write/read fixed-point domain.
+/// The `.tinydiff` reader is not used while generating.
+fn hist_diff(a: &RM, b: &RM) -> Option<Sexp> {
 	let d = MappingsDiff::diff(a, b).ok()?;
-	let norm = |d: &MappingsDiff| -> Option<MappingsDiff> {
-		let bytes = Content::Diff(diff_to(d)).bytes().ok()?;
-		let p = scratch.join("probe.tinydiff");
-		std::fs::write(&p, bytes).ok()?;
-		let back = quill::tiny_v2_diff::read_file(&p).ok();
-		let _ = std::fs::remove_file(&p);
-		back
-	};
-	let d1 = norm(&d)?;
-	let d2 = norm(&d1)?;
-	if diff_to(&d1) != diff_to(&d2) { return None; }
-	Some(Content::Diff(diff_to(&d1)))
+	let s = norm_diff(&diff_to(&d));
+	if writable(&s) { Some(s) } else { None }
+}
+
+fn empty_diff() -> Sexp { Sexp::list(vec![Sexp::tag("none"), Sexp::tag("none"), Sexp::list(vec![])]) }
+
+/// the normal form of a generated diff (no top-level actions: the text cannot express them; no `Edit(a, a)`)
+fn norm_g(d: &GDiff) -> Sexp {
+	let mut d = d.clone();
+	d.info = GA::None;
+	d.doc = GA::None;
+	norm_diff(&d.to_sexp())
+}
+
+// ------------------------------------------------------------------- mapcodec S-expression -> generator tree
+
+fn opt_string(s: &Sexp) -> Option<Option<String>> { Some(match s.as_opt().ok()? { None => None, Some(x) => Some(x.as_string().ok()?) }) }
+fn names_from_sx(s: &Sexp) -> Option<Vec<Option<String>>> { s.as_list().ok()?.iter().map(opt_string).collect() }
+
+fn g_member(m: &Sexp, is_method: bool) -> Option<GMember> {
+	let m = m.as_list().ok()?;
+	let mut params = Vec::new();
+	if is_method {
+		for p in m.get(5)?.as_list().ok()? {
+			let p = p.as_list().ok()?;
+			params.push(GParam { index: p.first()?.as_nat().ok()?, names: names_from_sx(p.get(2)?)?, doc: opt_string(p.get(3)?)? });
+		}
+	}
+	Some(GMember { desc: m.get(1)?.as_string().ok()?, names: names_from_sx(m.get(3)?)?, doc: opt_string(m.get(4)?)?, params })
+}
+
+/// inverse of `GMappings::to_sexp` (on sets whose entries are stored under the key their first name gives)
+fn g_from_sexp(s: &Sexp) -> Option<GMappings> {
+	let [ns, doc, classes] = s.as_list().ok()? else { return None };
+	let mut cs = Vec::new();
+	for c in classes.as_list().ok()? {
+		let c = c.as_list().ok()?;
+		cs.push(GClass { names: names_from_sx(c.get(1)?)?, doc: opt_string(c.get(2)?)?,
+			fields: c.get(3)?.as_list().ok()?.iter().map(|f| g_member(f, false)).collect::<Option<_>>()?,
+			methods: c.get(4)?.as_list().ok()?.iter().map(|m| g_member(m, true)).collect::<Option<_>>()? });
+	}
+	Some(GMappings { ns: ns.as_list().ok()?.iter().map(|x| x.as_string().ok()).collect::<Option<_>>()?, doc: opt_string(doc)?, classes: cs })
+}
+
+// ------------------------------------------------------------------- a diff between two labels, without /repo
+
+fn ga_of(a: &Option<String>, b: &Option<String>) -> GA {
+	match (a, b) {
+		(None, None) => GA::None,
+		(None, Some(y)) => GA::Add(y.clone()),
+		(Some(x), None) => GA::Remove(x.clone()),
+		(Some(x), Some(y)) => if x == y { GA::None } else { GA::Edit(x.clone(), y.clone()) },
+	}
+}
+
+/// the action on the name of an entry (`None` side = the key is absent there); `None` = no diff can express the step:
+/// an entry cannot lose its name and stay, only named entries can be removed or created
+fn name_action(a: Option<&Vec<Option<String>>>, b: Option<&Vec<Option<String>>>) -> Option<GA> {
+	match (a, b) {
+		(Some(a), Some(b)) => if a[0] != b[0] { None } else { match ga_of(&a[1], &b[1]) { GA::Remove(_) => None, x => Some(x) } },
+		(Some(a), None) => a[1].clone().map(GA::Remove),
+		(None, Some(b)) => b[1].clone().map(GA::Add),
+		(None, None) => None,
+	}
+}
+
+fn g_diff_params(a: &[GParam], b: &[GParam]) -> Option<Vec<GDParam>> {
+	let mut out = Vec::new();
+	for pa in a {
+		let pb = b.iter().find(|x| x.index == pa.index);
+		let info = name_action(Some(&pa.names), pb.map(|x| &x.names))?;
+		let doc = match pb { Some(pb) => ga_of(&pa.doc, &pb.doc), None => GA::None };
+		if info != GA::None || doc != GA::None { out.push(GDParam { index: pa.index, info, doc }); }
+	}
+	for pb in b.iter().filter(|x| !a.iter().any(|y| y.index == x.index)) {
+		// a parameter that a diff creates has no name in the first namespace (known finding of C04)
+		if pb.names[0].is_some() { return None; }
+		out.push(GDParam { index: pb.index, info: name_action(None, Some(&pb.names))?, doc: ga_of(&None, &pb.doc) });
+	}
+	Some(out)
+}
+
+fn g_diff_members(a: &[GMember], b: &[GMember], is_method: bool) -> Option<Vec<GDMember>> {
+	let same = |x: &GMember, y: &GMember| x.names[0] == y.names[0] && x.desc == y.desc;
+	let mut out = Vec::new();
+	for ma in a {
+		let mb = b.iter().find(|x| same(x, ma));
+		let info = name_action(Some(&ma.names), mb.map(|x| &x.names))?;
+		let (doc, params) = match mb {
+			Some(mb) => (ga_of(&ma.doc, &mb.doc), if is_method { g_diff_params(&ma.params, &mb.params)? } else { vec![] }),
+			None => (GA::None, vec![]),
+		};
+		if info != GA::None || doc != GA::None || !params.is_empty() {
+			out.push(GDMember { name: ma.names[0].clone().unwrap_or_default(), desc: ma.desc.clone(), info, doc, params });
+		}
+	}
+	for mb in b.iter().filter(|x| !a.iter().any(|y| same(x, y))) {
+		out.push(GDMember { name: mb.names[0].clone().unwrap_or_default(), desc: mb.desc.clone(), info: name_action(None, Some(&mb.names))?,
+			doc: ga_of(&None, &mb.doc), params: if is_method { g_diff_params(&[], &mb.params)? } else { vec![] } });
+	}
+	Some(out)
+}
+
+/// a diff that turns label `a` into label `b` (second parents of a node, reversed edges), written down from the two
+/// labels alone; `None` when no diff can do that
+fn g_diff(a: &GMappings, b: &GMappings) -> Option<GDiff> {
+	if a.ns != b.ns || a.doc != b.doc { return None; }
+	let mut classes = Vec::new();
+	for ca in &a.classes {
+		let cb = b.classes.iter().find(|x| x.key() == ca.key());
+		let info = name_action(Some(&ca.names), cb.map(|x| &x.names))?;
+		let (doc, fields, methods) = match cb {
+			Some(cb) => (ga_of(&ca.doc, &cb.doc), g_diff_members(&ca.fields, &cb.fields, false)?, g_diff_members(&ca.methods, &cb.methods, true)?),
+			None => (GA::None, vec![], vec![]),
+		};
+		if info != GA::None || doc != GA::None || !fields.is_empty() || !methods.is_empty() {
+			classes.push(GDClass { key: ca.key(), info, doc, fields, methods });
+		}
+	}
+	for cb in b.classes.iter().filter(|x| !a.classes.iter().any(|y| y.key() == x.key())) {
+		classes.push(GDClass { key: cb.key(), info: name_action(None, Some(&cb.names))?, doc: ga_of(&None, &cb.doc),
+			fields: g_diff_members(&[], &cb.fields, false)?, methods: g_diff_members(&[], &cb.methods, true)? });
+	}
+	Some(GDiff { info: GA::None, doc: GA::None, classes })
+}
+
+// ------------------------------------------------------------------- what an edge file contains (distribution)
+
+fn kind_of(a: &Sexp) -> &'static str { match act(a) { Act::None => "none", Act::Add(_) => "add", Act::Remove(_) => "remove", Act::Edit(..) => "edit" } }
+
+fn find_entry<'a>(list: &'a Sexp, key: &[Sexp]) -> Option<&'a [Sexp]> {
+	items(list).iter().map(|x| items(x)).find(|x| x.len() >= key.len() && x[..key.len()] == *key)
+}
+
+struct EdgeWalk<'a, 'b> {
+	st: &'a mut Out<'b>,
+	/// keys (paths) that diffs on the way from the root have created or given their name
+	added_before: &'a BTreeSet<String>,
+	added: BTreeSet<String>,
+	comment_levels: BTreeSet<&'static str>,
+	name_kinds: BTreeSet<&'static str>,
+}
+
+impl EdgeWalk<'_, '_> {
+	/// one diff entry against the entry of the parent version (`tnames` = its names row, `None` = key absent); true = removal
+	fn node(&mut self, lvl: &'static str, info: &Sexp, doc: &Sexp, tnames: Option<&Sexp>, t_children: bool, d_children: bool, path: &str, under_removed: bool) -> bool {
+		let (kind, dk) = (kind_of(info), kind_of(doc));
+		let state = if under_removed { "below-removal" } else {
+			match tnames { None => "new-key", Some(n) => if items(n).get(1).is_some_and(|x| !items(x).is_empty()) { "named" } else { "unnamed" } }
+		};
+		self.st.stats.hit(&format!("edge:{lvl}:name-{kind}:{state}"));
+		self.st.stats.hit(&format!("edge:{lvl}:comment-{dk}"));
+		if dk != "none" { self.comment_levels.insert(lvl); }
+		self.name_kinds.insert(kind);
+		if !under_removed {
+			if kind == "remove" && t_children { self.st.stats.hit(&format!("edge:{lvl}:removes-whole-subtree")); }
+			if kind == "none" && dk == "none" && d_children { self.st.stats.hit(&format!("edge:{lvl}:only-children-touched")); }
+			if kind == "none" && dk != "none" && state == "unnamed" { self.st.stats.hit(&format!("edge:{lvl}:comment-on-unnamed")); }
+			if self.added_before.contains(path) { self.st.stats.hit(&format!("edge:{lvl}:touches-earlier-addition")); }
+			if kind == "add" { self.added.insert(path.to_owned()); }
+		}
+		kind == "remove"
+	}
+}
+
+/// records what the diff `d` of an edge does to the label `parent`; returns the additions on the path including this edge
+fn edge_stats(d: &Sexp, parent: &Sexp, added_before: &BTreeSet<String>, st: &mut Out) -> BTreeSet<String> {
+	let mut w = EdgeWalk { st, added_before, added: added_before.clone(), comment_levels: BTreeSet::new(), name_kinds: BTreeSet::new() };
+	let dcs = items(items(d).get(2).unwrap_or(&Sexp::List(vec![]))).to_vec();
+	let nothing = Sexp::List(vec![]);
+	let tcs = items(parent).get(2).unwrap_or(&nothing);
+	for dc in &dcs {
+		let dc = items(dc);
+		if dc.len() < 5 { continue; }
+		let tc = find_entry(tcs, &dc[..1]);
+		let cpath = format!("c {}", dc[0]);
+		let t_children = tc.is_some_and(|t| !items(&t[3]).is_empty() || !items(&t[4]).is_empty());
+		let crem = w.node("class", &dc[1], &dc[2], tc.map(|t| &t[1]), t_children, !items(&dc[3]).is_empty() || !items(&dc[4]).is_empty(), &cpath, false);
+		for df in items(&dc[3]) {
+			let df = items(df);
+			let tf = tc.and_then(|t| find_entry(&t[3], &df[..2]));
+			w.node("field", &df[2], &df[3], tf.map(|t| &t[3]), false, false, &format!("{cpath} f {} {}", df[0], df[1]), crem);
+		}
+		for dm in items(&dc[4]) {
+			let dm = items(dm);
+			let tm = tc.and_then(|t| find_entry(&t[4], &dm[..2]));
+			let mpath = format!("{cpath} m {} {}", dm[0], dm[1]);
+			let mrem = w.node("method", &dm[2], &dm[3], tm.map(|t| &t[3]), tm.is_some_and(|t| !items(&t[5]).is_empty()), !items(&dm[4]).is_empty(), &mpath, crem) || crem;
+			let mut pdocs = 0;
+			for dp in items(&dm[4]) {
+				let dp = items(dp);
+				let tp = tm.and_then(|t| find_entry(&t[5], &dp[..1]));
+				w.node("param", &dp[1], &dp[2], tp.map(|t| &t[2]), false, false, &format!("{mpath} p {}", dp[0]), mrem);
+				if kind_of(&dp[2]) != "none" { pdocs += 1; }
+				if let Some(tp) = tp { w.st.stats.hit(if items(&tp[2]).first().is_some_and(|x| !items(x).is_empty()) { "edge:param:target-has-source-name" } else { "edge:param:target-without-source-name" }); }
+			}
+			if kind_of(&dm[3]) != "none" && pdocs >= 1 { w.st.stats.hit("edge:method:comment-with-param-comment"); }
+			if pdocs >= 2 { w.st.stats.hit("edge:method:param-comments>=2"); }
+		}
+	}
+	if dcs.is_empty() { w.st.stats.hit("edge:file:empty"); }
+	w.st.stats.hit(&format!("edge:file:comment-levels={}", w.comment_levels.len()));
+	w.name_kinds.remove("none");
+	w.st.stats.hit(&format!("edge:file:name-action-kinds={}", w.name_kinds.len()));
+	w.added
 }
 
 const ATOMS: &[&str] = &["1.0", "1.1", "1.2", "1.3", "b1.4", "a1.0.15", "12w05a", "r", "é1", "x.tiny", "1.RV-Pre1", "server-0.1",
@@ -591,17 +807,23 @@ const ATOMS: &[&str] = &["1.0", "1.1", "1.2", "1.3", "b1.4", "a1.0.15", "12w05a"
 struct GenDir { files: Vec<FileSpec>, queries: Vec<String>, labels: Vec<(String, Sexp)>, kind: String }
 
 /// one random directory: a graph shape, node names, an edit history along the edges, defects
-fn gen_dir(r: &mut Rng, scratch: &Path, st: &mut Out) -> Option<GenDir> {
+fn gen_dir(r: &mut Rng, st: &mut Out) -> Option<GenDir> {
+	// "direct": the diffs on the edges are drawn directly (generator of C04) against the label of the parent version and the
+	// labels follow by the specification of diff application; "history": the labels are an edit history and the diffs are
+	// `MappingsDiff::diff` of /repo (all names present, as `diff` requires)
+	let direct = r.chance(3, 5);
 	let mut cfg = MapCfg::basic(2);
-	cfg.absent_pct = 0;
+	cfg.absent_pct = if direct { *r.pick(&[0, 15, 35]) } else { 0 };
 	cfg.param_src_names = r.chance(1, 6);
 	cfg.nest_depth = r.range(0, 2);
 	cfg.max_classes = r.range(1, 4);
-	cfg.max_members = r.range(0, 2);
+	cfg.max_members = if direct { r.range(1, 3) } else { r.range(0, 2) };
+	if direct { cfg.max_params = 3; cfg.doc_pct = *r.pick(&[25, 50]); }
 	cfg.unicode = r.chance(1, 5);
 	cfg.closed_nesting = !r.chance(1, 8);
 	cfg.extended_targets = false;
 	let mut g0 = gen_mappings(r, &cfg);
+	scrub(&mut g0);
 	g0.ns = match r.below(14) { 0 => vec!["intermediary".into(), "yarn".into()], 1 => vec!["official".into(), "named".into()], _ => vec!["intermediary".into(), "named".into()] };
 
 	// ---- node names
@@ -651,14 +873,40 @@ fn gen_dir(r: &mut Rng, scratch: &Path, st: &mut Out) -> Option<GenDir> {
 	if shape == "diamond" && r.chance(1, 3) { defect = "inconsistent".into(); }
 	if n == 1 && matches!(defect.as_str(), "cycle" | "inconsistent" | "reversed-diff" | "raw-edge" | "root-cycle") { defect = "none".into(); }
 
-	// ---- labels along an edit history
+	// ---- labels and the diffs of the edges
+	let first_parent = |c: usize| edges.iter().find(|(_, cc)| *cc == c).map(|(p, _)| *p).unwrap_or(0);
 	let mut label: Vec<GMappings> = vec![g0.clone()];
+	let mut tree_diff: Vec<Option<Sexp>> = vec![None];
+	let mut refused = vec![false];
+	let named = Sexp::str("named");
+	let draw = |r: &mut Rng, t: &GMappings, bad: usize, st: &mut Out| -> Sexp {
+		let dc = DCfg { bad_pct: bad, touch_pct: *r.pick(&[40, 80, 100, 100]), extra_pct: *r.pick(&[0, 30, 70]) };
+		norm_g(&gen_diff_for(r, t, 1, &dc, &cfg, st))
+	};
 	for c in 1..n {
-		let p = edges.iter().find(|(_, cc)| *cc == c).map(|(p, _)| *p).unwrap_or(0);
-		let next = mutate(r, &label[p], &cfg);
-		label.push(next);
+		let p = first_parent(c);
+		if direct {
+			let bad = *r.pick(&[0, 0, 0, 0, 0, 0, 0, 3]);
+			let d = draw(r, &label[p], bad, st);
+			// the label of the child is what the specification says; a diff it refuses leaves an edge that cannot be applied
+			let applied = spec_apply(&d, &label[p].to_sexp(), &named);
+			if applied.is_ok() && applied.as_ref().ok().and_then(g_from_sexp).is_none() { st.stats.hit("gen:label-not-decoded"); }
+			match applied.ok().and_then(|m| g_from_sexp(&m)) {
+				Some(m) => { label.push(m); refused.push(false); }
+				None => { label.push(label[p].clone()); refused.push(true); st.stats.hit(if g0.ns[1] == "named" { "edge:refused:inconsistent-action" } else { "edge:refused:no-namespace-named" }); }
+			}
+			tree_diff.push(Some(d));
+		} else {
+			let mut next = mutate(r, &label[p], &cfg);
+			scrub(&mut next);
+			label.push(next);
+			tree_diff.push(None);
+			refused.push(false);
+		}
 	}
 	let reals: Vec<RM> = label.iter().map(real).collect::<Option<_>>()?;
+	let label_sx: Vec<Sexp> = label.iter().map(|l| l.to_sexp()).collect();
+	st.stats.hit(if direct { "mode:direct" } else { "mode:history" });
 
 	// ---- files
 	let mut files: Vec<FileSpec> = Vec::new();
@@ -667,20 +915,42 @@ fn gen_dir(r: &mut Rng, scratch: &Path, st: &mut Out) -> Option<GenDir> {
 	if defect == "raw-root" { root_content = Content::Raw(r.pick(RAW_ALLOWED).to_vec()); }
 	let bad_edge = if edges.is_empty() { 0 } else if shape == "diamond" && r.chance(2, 3) { r.below(4) } else { r.below(edges.len()) };
 	let mut edge_files: Vec<(String, Content)> = Vec::new();
+	// additions (new keys, names given to unnamed entries) on the way from the root, per node
+	let mut added: Vec<BTreeSet<String>> = vec![BTreeSet::new(); n];
 	for (i, (p, c)) in edges.iter().enumerate() {
-		let mut content = diff_content(&reals[*p], &reals[*c], scratch)?;
+		let tree_edge = first_parent(*c) == *p && edges.iter().position(|e| e.1 == *c) == Some(i);
+		let consistent: Option<Sexp> = if !direct { hist_diff(&reals[*p], &reals[*c]) }
+			else if tree_edge { tree_diff[*c].clone() }
+			else { g_diff(&label[*p], &label[*c]).map(|d| norm_g(&d)).filter(|d| writable(d)) };
+		let mut content = match consistent {
+			Some(d) => Content::Diff(d),
+			// history: outside the fixed-point domain of the text; direct: no diff leads from this parent to the child's label
+			None if !direct => return None,
+			None => { st.stats.hit("second-edge:no-consistent-diff"); if r.chance(1, 2) { continue; } Content::Diff(draw(r, &label[*p], 0, st)) }
+		};
+		if !tree_edge && direct { st.stats.hit("second-edge"); }
 		if i == bad_edge {
 			match defect.as_str() {
-				"inconsistent" => { let other = real(&mutate(r, &label[*c], &cfg))?; content = diff_content(&reals[*p], &other, scratch)?; }
-				"reversed-diff" => content = diff_content(&reals[*c], &reals[*p], scratch)?,
+				"inconsistent" => {
+					content = Content::Diff(if direct { draw(r, &label[*p], 0, st) } else { let mut o = mutate(r, &label[*c], &cfg); scrub(&mut o); hist_diff(&reals[*p], &real(&o)?)? });
+				}
+				"reversed-diff" => {
+					let rev = if direct { g_diff(&label[*c], &label[*p]).map(|d| norm_g(&d)).filter(|d| writable(d)) } else { hist_diff(&reals[*c], &reals[*p]) };
+					if let Some(d) = rev { content = Content::Diff(d); }
+				}
 				"raw-edge" => content = Content::Raw(r.pick(RAW_ALLOWED).to_vec()),
 				"swapped-content" => content = root_content.clone(),
 				_ => {}
 			}
 		}
+		if let Content::Diff(d) = &content {
+			let a = edge_stats(d, &label_sx[*p], &added[*p], st);
+			if tree_edge { added[*c] = a; }
+			if tree_edge && refused[*c] { st.stats.hit("edge:file:refused-by-specification"); }
+		}
 		edge_files.push((format!("{}#{}.tinydiff", names[*p], names[*c]), content));
 	}
-	let empty_diff = diff_content(&reals[0], &reals[0], scratch)?;
+	let empty_diff = Content::Diff(empty_diff());
 	match defect.as_str() {
 		"cycle" => {
 			let (p, c) = edges[bad_edge];
@@ -722,7 +992,94 @@ fn gen_dir(r: &mut Rng, scratch: &Path, st: &mut Out) -> Option<GenDir> {
 	st.stats.hit(&format!("nodes:{n}"));
 	st.stats.hit(&format!("files:{}", files.len()));
 	st.stats.hit(if wf { "well-formed" } else { "key-collision" });
-	Some(GenDir { files, queries, labels, kind: format!("{shape}/{defect}") })
+	Some(GenDir { files, queries, labels, kind: format!("{}/{shape}/{defect}", if direct { "direct" } else { "history" }) })
+}
+
+// =================================================================== fixed scenario directories
+
+fn ga_add(b: &str) -> GA { GA::Add(b.to_owned()) }
+fn ga_rem(a: &str) -> GA { GA::Remove(a.to_owned()) }
+fn ga_edit(a: &str, b: &str) -> GA { GA::Edit(a.to_owned(), b.to_owned()) }
+fn dparam(index: usize, info: GA, doc: GA) -> GDParam { GDParam { index, info, doc } }
+fn dfield(name: &str, desc: &str, info: GA, doc: GA) -> GDMember { GDMember { name: name.into(), desc: desc.into(), info, doc, params: vec![] } }
+fn dmethod(name: &str, desc: &str, info: GA, doc: GA, params: Vec<GDParam>) -> GDMember { GDMember { name: name.into(), desc: desc.into(), info, doc, params } }
+fn dclass(key: &str, info: GA, doc: GA, fields: Vec<GDMember>, methods: Vec<GDMember>) -> GDClass { GDClass { key: key.into(), info, doc, fields, methods } }
+
+/// A hand-written history that does not depend on the seed: comments on a class, a field, a method and several of its
+/// parameters in one file; names given to a class and a method that exist without one (with edits of their members in
+/// the same file, and one edge later); new keys at every level; comment edits and removals; later diffs touching what
+/// earlier ones added; removal of whole subtrees; comments on entries that stay unnamed.
+fn scenario() -> Option<Vec<GenDir>> {
+	let n = |s: &str| Some(s.to_owned());
+	let root = GMappings { ns: vec!["intermediary".into(), "named".into()], doc: None, classes: vec![
+		GClass { names: vec![n("a"), n("org/example/ClassA")], doc: None,
+			fields: vec![GMember { desc: "I".into(), names: vec![n("e"), n("fieldE")], doc: None, params: vec![] }],
+			methods: vec![
+				GMember { desc: "(II)V".into(), names: vec![n("b"), n("methodB")], doc: None, params: vec![
+					GParam { index: 1, names: vec![None, n("first")], doc: None }, GParam { index: 2, names: vec![None, n("second")], doc: None }] },
+				GMember { desc: "(I)V".into(), names: vec![n("c"), None], doc: None, params: vec![GParam { index: 1, names: vec![None, n("value")], doc: None }] }] },
+		GClass { names: vec![n("a$x"), n("ClassX")], doc: None, fields: vec![], methods: vec![] },
+		GClass { names: vec![n("b"), None], doc: None, fields: vec![GMember { desc: "I".into(), names: vec![n("d"), n("fieldD")], doc: None, params: vec![] }], methods: vec![] },
+	] };
+	let no = || GA::None;
+	// (parent, child, diff)
+	let steps: Vec<(&str, &str, Vec<GDClass>)> = vec![
+		("1.0", "1.1", vec![dclass("a", no(), ga_add("Comment for ClassA"), vec![dfield("e", "I", no(), ga_add("Comment for fieldE"))], vec![
+			dmethod("b", "(II)V", no(), ga_add("Comment for methodB"), vec![dparam(1, no(), ga_add("Comment for first")), dparam(2, no(), ga_add("Comment for second"))])])]),
+		("1.1", "1.2", vec![
+			dclass("b", ga_add("ClassB"), no(), vec![dfield("d", "I", ga_edit("fieldD", "fieldDRenamed"), no())], vec![]),
+			dclass("a", no(), no(), vec![], vec![dmethod("c", "(I)V", ga_add("methodC"), ga_add("Comment for methodC"), vec![
+				dparam(1, ga_edit("value", "amount"), no()), dparam(0, ga_add("self"), ga_add("Comment for self"))])])]),
+		("1.2", "1.3", vec![
+			dclass("a", ga_edit("org/example/ClassA", "org/example/ClassARenamed"), ga_edit("Comment for ClassA", "Comment\nfor ClassA, edited"),
+				vec![dfield("e", "I", no(), ga_rem("Comment for fieldE"))],
+				vec![dmethod("b", "(II)V", no(), ga_edit("Comment for methodB", "x\\y"), vec![
+					dparam(1, no(), ga_rem("Comment for first")), dparam(2, ga_edit("second", "zweiter"), ga_edit("Comment for second", "tab\there"))])]),
+			dclass("n", ga_add("ClassN"), ga_add("Comment for ClassN"), vec![dfield("g", "J", ga_add("fieldG"), ga_add("Comment for fieldG"))],
+				vec![dmethod("o", "()V", ga_add("methodO"), ga_add("Comment for methodO"), vec![dparam(0, ga_add("arg"), ga_add("Comment for arg"))])])]),
+		("1.3", "1.4", vec![
+			dclass("b", ga_rem("ClassB"), no(), vec![dfield("d", "I", no(), ga_add("never looked at"))], vec![]),
+			dclass("a", no(), no(), vec![], vec![
+				dmethod("b", "(II)V", ga_rem("methodB"), no(), vec![dparam(1, ga_rem("first"), no())]),
+				dmethod("c", "(I)V", no(), no(), vec![dparam(0, ga_rem("self"), no())])]),
+			dclass("n", no(), no(), vec![dfield("g", "J", ga_edit("fieldG", "fieldH"), no())],
+				vec![dmethod("o", "()V", no(), no(), vec![dparam(0, no(), ga_edit("Comment for arg", "Comment for arg, edited")), dparam(3, ga_add("late"), no())])])]),
+		("1.0", "2.0", vec![dclass("a", no(), no(), vec![], vec![dmethod("b", "(II)V", no(), no(), vec![dparam(1, no(), ga_add("Comment for first")), dparam(2, no(), ga_add("Comment for second"))])])]),
+		("2.0", "2.1", vec![
+			dclass("b", no(), ga_add("Comment for b"), vec![dfield("d", "I", no(), ga_add("Comment for fieldD"))], vec![]),
+			dclass("a", no(), no(), vec![], vec![dmethod("c", "(I)V", no(), ga_add("Comment for c"), vec![dparam(1, no(), ga_add("Comment for value"))])])]),
+		("2.1", "2.2", vec![
+			dclass("b", ga_add("ClassB"), ga_edit("Comment for b", "Comment for ClassB"), vec![], vec![]),
+			dclass("a", no(), no(), vec![], vec![dmethod("c", "(I)V", ga_add("methodC"), ga_rem("Comment for c"), vec![dparam(1, no(), ga_edit("Comment for value", "q"))])])]),
+	];
+	let named = Sexp::str("named");
+	let mut labels: Vec<(String, Sexp)> = vec![("1.0".into(), root.to_sexp())];
+	let mut files = vec![FileSpec { name: "1.0.tiny".into(), rank: 0, content: tiny_content(&real(&root)?)? }];
+	for (p, c, classes) in steps {
+		let d = norm_g(&GDiff { info: GA::None, doc: GA::None, classes });
+		let lp = labels.iter().find(|(name, _)| name == p)?.1.clone();
+		let lc = spec_apply(&d, &lp, &named).ok()?;
+		// through the codec, as every label of a request
+		labels.push((c.to_owned(), to_sexp(&from_sexp::<2, (Intermediary, Named)>(&lc).ok()?)));
+		files.push(FileSpec { name: format!("{p}#{c}.tinydiff"), rank: 0, content: Content::Diff(d) });
+	}
+	// one directory per version: the root and the edges on the way to it (shortest histories first), then the whole tree
+	let parent_of = |v: &str| files.iter().find_map(|f| f.name.strip_suffix(".tinydiff").and_then(|x| x.split_once('#')).filter(|(_, c)| *c == v).map(|(p, _)| p.to_owned()));
+	let mut dirs: Vec<GenDir> = Vec::new();
+	for (v, _) in labels.iter().skip(1) {
+		let mut path = vec![v.clone()];
+		while let Some(p) = parent_of(path.last()?) { path.push(p); }
+		let fs: Vec<FileSpec> = files.iter().filter(|f| f.name.ends_with(".tiny") || path.iter().any(|c| f.name.ends_with(&format!("#{c}.tinydiff")))).cloned().collect();
+		let ls: Vec<(String, Sexp)> = labels.iter().filter(|(name, _)| path.contains(name)).cloned().collect();
+		let mut queries: Vec<String> = ls.iter().map(|(name, _)| name.clone()).collect();
+		queries.push("nope".into());
+		dirs.push(GenDir { files: fs, queries, labels: ls, kind: "scenario".into() });
+	}
+	dirs.sort_by_key(|d| d.files.len());
+	let mut queries: Vec<String> = labels.iter().map(|(name, _)| name.clone()).collect();
+	queries.push("nope".into());
+	dirs.push(GenDir { files, queries, labels, kind: "scenario".into() });
+	Some(dirs)
 }
 
 /// assigns the ranks of a creation order, creates the directory, and returns the files in listing order
@@ -752,8 +1109,12 @@ fn emit(out: &mut Out, op: &str, base: usize, files: &[FileSpec], queries: &[Str
 }
 
 /// what the unchanged implementation answers (distribution only)
-fn classify(out: &mut Out, base: usize, files: &[FileSpec], queries: &[String]) {
+fn classify(out: &mut Out, base: usize, files: &[FileSpec], queries: &[String], labels: &[(String, Sexp)], kind: &str) {
 	let Ok(Some(td)) = materialize(base, &by_rank(files)) else { return };
+	let req = Req { base, files: files.to_vec(), queries: queries.to_vec() };
+	let ls = Sexp::list(labels.iter().map(|(n, m)| Sexp::list(vec![Sexp::str(n), m.clone()])).collect());
+	let verdict = match oracle_path_independent(&req, &td.0, &ls) { Ans::Ok(s) => s.to_string(), _ => "other".into() };
+	out.stats.hit(&format!("path-independent:{}:{verdict}", kind.split('/').next().unwrap_or("")));
 	match vg_answer(&td.0, queries) {
 		None => out.stats.hit("resolve:err"),
 		Some(s) => {
@@ -768,15 +1129,42 @@ fn classify(out: &mut Out, base: usize, files: &[FileSpec], queries: &[String]) 
 }
 
 fn gen(r: &mut Rng, tier: Tier, out: &mut Out) {
-	let scratch = mk_temp(0).expect("scratch directory");
 	let bases: Vec<usize> = (0..2).filter(|b| base_dir(*b).is_some()).collect();
 	out.stats.add("bases", bases.len() as u64);
-	let rounds = if tier == Tier::Thorough { 6000 } else { 700 };
+	// the seed-independent scenario first (its failures are the most readable ones), in two creation orders per base
+	match scenario() {
+		None => out.stats.hit("scenario:not-built"),
+		Some(dirs) => for (k, d) in dirs.iter().enumerate() {
+			if k + 1 == dirs.len() {
+				// distribution of the edge files: once, on the whole tree
+				let mut added: BTreeMap<String, BTreeSet<String>> = BTreeMap::new();
+				for f in &d.files {
+					let (Content::Diff(s), Some((p, c))) = (&f.content, f.name.strip_suffix(".tinydiff").and_then(|x| x.split_once('#'))) else { continue };
+					let Some(lp) = d.labels.iter().find(|(name, _)| name == p).map(|(_, l)| l.clone()) else { continue };
+					let a = edge_stats(s, &lp, &added.get(p).cloned().unwrap_or_default(), out);
+					added.insert(c.to_owned(), a);
+				}
+			}
+			let mut first = true;
+			for &base in &bases {
+				let fwd: Vec<usize> = (0..d.files.len()).collect();
+				let rev: Vec<usize> = fwd.iter().rev().cloned().collect();
+				for o in [fwd, rev] {
+					let Some(listed) = probe(base, &d.files, &o) else { out.stats.hit("gen:probe-failed"); continue };
+					out.stats.hit("scenario-dir");
+					for op in ["vg", "oracle-fold", "oracle-errors", "oracle-names", "oracle-perm"] { emit(out, op, base, &listed, &d.queries, None); }
+					// once per directory: a failure is then reported for three different histories
+					if first { first = false; emit(out, "oracle-path-independent", base, &listed, &d.queries, Some(&d.labels)); }
+				}
+			}
+		}
+	}
+	let rounds = if tier == Tier::Thorough { 6000 } else { 850 };
 	let mut made = 0;
 	let mut tries = 0;
 	while made < rounds && tries < rounds * 4 {
 		tries += 1;
-		let Some(d) = gen_dir(r, &scratch.0, out) else { out.stats.hit("gen:dropped"); continue };
+		let Some(d) = gen_dir(r, out) else { out.stats.hit("gen:dropped"); continue };
 		made += 1;
 		let n = d.files.len();
 		// several file-creation orders where the creation order decides the listing order (tmpfs), one elsewhere; the
@@ -793,7 +1181,7 @@ fn gen(r: &mut Rng, tier: Tier, out: &mut Out) {
 				emit(out, "oracle-errors", base, &listed, &d.queries, None);
 				if first {
 					first = false;
-					classify(out, base, &listed, &d.queries);
+					classify(out, base, &listed, &d.queries, &d.labels, &d.kind);
 					emit(out, "oracle-names", base, &listed, &d.queries, None);
 					emit(out, "oracle-path-independent", base, &listed, &d.queries, Some(&d.labels));
 					if made % 2 == 0 { emit(out, "oracle-perm", base, &listed, &d.queries, None); }
